@@ -165,6 +165,40 @@ add("C10", "X-logic-const-operand", "fixed", "(v1 >> 16) && ((\"steam\", 29) AND
     {"kind": "scalar", "prog": Program((S("v1", "stone", -1),
         Decl("Signal", "v2", Bin("&&", Bin(">>", Ref("v1"), Num(16)), Bin("AND", SigLit("steam", Num(29)), Num(10)))))),
      "steps": [{"v1": -1}, {"v1": 0}], "opts": {}, "sched": {"seed": 0}}, commit="29a8d99")
+add("C08", "F-small-pole-reach", "open",
+    "--power-poles small: power poles double as circuit relays and the pole table gives small poles a reach of 9 tiles (game data: 7.5, "
+    "value pinned by test_power_planner.py): circuit wires of 8.2 and 8.5 tiles are attached to small poles",
+    {"prog": Program((Decl("Signal", "in2", Num(0)), Decl("Entity", "ent2", Place("inserter", Num(0), Num(0))), Assign("ent2", "enable", Ref("in2")),
+                      Decl("Entity", "ent3", Place("assembling-machine-1", Num(0), Num(20))), Assign("ent3", "enable", Ref("in2")))),
+     "opts": {}, "poles": "small", "optimize": True, "sched": {"seed": 7}},
+    trigger="small-pole-circuit-reach")
+C18 = {"opts": {}, "optimize": True}
+add("C18", "F-pole-coverage", "open",
+    "--power-poles small: an assembling machine at (2,8) is not covered: the grid pole on its own tile is skipped and its neighbours "
+    "are trimmed because trimming measures to the entity's centre",
+    {"prog": Program((S("in1", "signal-red", 2), Decl("Entity", "ent1", Place("pump", Num(1), Num(0))), Decl("Entity", "ent4", Place("pump", Num(-11), Num(1))),
+                      Decl("Entity", "ent6", Place("assembling-machine-1", Num(2), Num(8))))),
+     "poles": "small", "vals": [{"in1": -1}], "sched": {"seed": 11, "workers": 1, "det_time": 0.05}, **C18},
+    trigger="pole-coverage-holes")
+add("C18", "F-big-pole-supply", "open",
+    "--power-poles big: the pole table gives big poles a supply radius of 5 (game data: 2, value pinned by test_power_planner.py): a pump at (0,7) is left unpowered",
+    {"prog": Program((Decl("Entity", "ent1", Place("pump", Num(0), Num(7))),)), "poles": "big", "vals": [{}],
+     "sched": {"seed": 1, "workers": 1, "det_time": 0.5}, **C18},
+    trigger="big-pole-supply-area")
+add("C18", "F-pole-far", "open",
+    "user entities far from the origin: a single lamp at (61,60) with --power-poles substation gets no pole at all",
+    {"prog": Program((Decl("Entity", "ent3", Place("small-lamp", Num(61), Num(60))),)), "poles": "substation", "vals": [{}],
+     "sched": {"seed": 19, "workers": 1, "det_time": 0.05}, **C18},
+    trigger="pole-grid-far-apart")
+add("C18", "X-pole-grid-split", "fixed",
+    "two machines 25 tiles apart with --power-poles small: trimming left two pole islands out of each other's wire reach",
+    {"prog": Program((Decl("Signal", "in1", Num(0)), Decl("Entity", "ent1", Place("assembling-machine-1", Num(20), Num(-4))))), "poles": "small",
+     "vals": [{"in1": 12}], "sched": {"seed": 20, "workers": 1, "det_time": 0.5}, **C18}, commit="9602cb4")
+add("C09", "X-decomposition-moves-fixed", "fixed",
+    "more than 500 entities: the solver's component decomposition shifted user-placed entities (520 lamps from a loop all moved)",
+    {"prog": Program((S("sig", "signal-A", 3), For("i0", Range(Num(0), Num(520), None),
+        (Decl("Entity", "le", Place("small-lamp", Bin("+", Bin("*", Ref("i0"), Num(2)), Num(5)), Num(7))),)))),
+     "info": {"loop": True}, "opts": {}, "poles": None, "optimize": True, "sched": {"seed": 0}}, commit="081906c")
 
 
 def main():
